@@ -46,6 +46,10 @@ CHECKS = {
    technique='deterministic simulation of attribute-operation histories (1.x index form and 2.0 current/new/reference form) with restarts; frame-condition oracle on the stored rows of every object plus an exact-change model',
    text='Sequences of Set/Modify/DeleteAttribute over modifiable, protected, unsupported and unknown attribute names, index classes {absent, 0, in range, len, large, negative}, every object type, owner and non-owner, mixed with other operations and restarts. Before/after rows of every object: protected attributes (identifier, type, state, owner, policy name, usage mask, algorithm, length, initial date, value) never change; a successful call must equal apply(before, call) exactly (one instance changed or removed, nothing else anywhere); a failed call changes nothing; GetAttributes must reflect the stored rows.',
    note='Ground truth is the content of the SQLite tables; the exact-change model is written from the property statement and KMIP attribute-operation semantics.'),
+ 'C05': dict(level='exploration', ref='5/C05',
+   technique='deterministic simulation of the full stack (real ProxyKmipClient/KMIPProxy/KMIPProtocol over a simulated chunking transport to the real session, engine and SQLite) with clean restarts and crash-restarts; field-by-field read-back oracle',
+   text='Objects of the seven stored types with boundary values (empty/1 byte/1024+ byte values, all mask classes, 1-3 names incl. non-ASCII, application information, key wrapping data with every optional field present/absent, split-key fields, large enum members) are stored through the real client library under a seeded KMIP version, interleaved with another client\'s traffic, clean restarts and kill-restarts during other operations; after every step every object is read back (get, get_attributes, get_attribute_list) by a client of another seeded version and compared field by field on an independent projection, and the attribute set must be exactly supplied + server-assigned.',
+   note='The attributes a caller can supply are those ProxyKmipClient.register/create send (usage mask, policy name, names, application information); ProxyKmipClient.create adds Encrypt|Decrypt to the mask by design. KMIPProxy.open() is stubbed (cannot run on Python 3.12).'),
 }
 ALL = ['C%02d' % i for i in range(1, 21)]
 
